@@ -210,7 +210,10 @@ def rule_last_statement(ctx):
     ctx.floor("C04.d traces", n, 40)
 
 
+from .c16 import rule_nop  # noqa: E402  (a statement wrongly no-op'd changes no rows and reports no count)
+
 RULES = [
+    ("C04.e", rule_nop, ("quick", "thorough")),
     ("C04.a", rule_count, ("quick", "thorough")),
     ("C04.b", rule_status, ("quick", "thorough")),
     ("C04.c", rule_keycmd, ("quick", "thorough")),
